@@ -121,6 +121,26 @@ pub struct Scenario {
     /// byte strings for decode-level families
     #[serde(default)]
     pub inputs: Vec<Vec<u8>>,
+    /// operation history for the component-level routing-table family (C08)
+    #[serde(default)]
+    pub table_ops: Vec<TableOp>,
+}
+
+/// One operation on a `RoutingTable` owned by the harness (hook H2).
+#[derive(Clone, Debug, Serialize, Deserialize, PartialEq, Eq)]
+pub enum TableOp {
+    /// add_node(Node::as_good(..)): a node that just answered
+    OfferGood { id: [u8; 20], addr: SocketAddr },
+    /// add_node(Node::as_questionable(..)): a node named by somebody else
+    OfferHearsay { id: [u8; 20], addr: SocketAddr },
+    /// add_nodes(good, hearsay..) as the handler calls it for one response
+    AddNodes { id: [u8; 20], addr: SocketAddr, named: Vec<([u8; 20], SocketAddr)> },
+    /// we sent the node a query
+    LocalRequest { id: [u8; 20], addr: SocketAddr },
+    /// the node sent us a query
+    RemoteRequest { id: [u8; 20], addr: SocketAddr },
+    Advance { ms: u64 },
+    SetRouters { addrs: Vec<SocketAddr> },
 }
 
 impl Scenario {
@@ -137,6 +157,7 @@ impl Scenario {
             params: BTreeMap::new(),
             blob: vec![],
             inputs: vec![],
+            table_ops: vec![],
         }
     }
     pub fn at(&mut self, t: Ms, op: Op) -> usize {
@@ -551,7 +572,7 @@ pub async fn execute(sc: &Scenario) -> RunLog {
     let net2 = net.clone();
     let watchdog = async move {
         loop {
-            tokio::time::sleep(Duration::from_millis(250)).await;
+            tokio::time::sleep(Duration::from_secs(30)).await;
             if net2.lock().overflow {
                 break;
             }
